@@ -145,27 +145,6 @@ Definition model_consts : list (string * Z) := [
   ("att.default_mtu", 23)
 ].
 
-(* The same two functions as they are BEFORE the repair of finding D12e (fixes/D12e.patch: the
-   include declaration carries the UUID only for a 16-bit UUID, the client reads the service
-   declaration otherwise).  Model/GattClient.v models the repaired code; a source tree without
-   the repair is recognised as such (and reports the known finding) instead of failing the
-   shape obligation. *)
-Definition pre_D12e_skeletons : list (string * string) := [
-  ("client.discover_included_services",
-   "(self,service){starting_handle = service.handle;ending_handle = service.end_group_handle;included_services = [];while starting_handle <= ending_handle{response = await self.send_request(att.ATT_Read_By_Type_Request(starting_handle=starting_handle, ending_handle=ending_handle, attribute_type=GATT_INCLUDE_ATTRIBUTE_TYPE));if response is None{return []};if response.op_code == att.Opcode.ATT_ERROR_RESPONSE{if response.error_code != att.ATT_ATTRIBUTE_NOT_FOUND_ERROR{raise att.ATT_Error(error_code=response.error_code)};break};if not response.attributes{break};for (attribute_handle, attribute_value) in response.attributes{if attribute_handle < starting_handle{return []};group_starting_handle, group_ending_handle = struct.unpack_from('<HH', attribute_value);service_uuid = UUID.from_bytes(attribute_value[4:]);included_service = ServiceProxy(self, group_starting_handle, group_ending_handle, service_uuid, True);included_services.append(included_service)};starting_handle = response.attributes[-1][0] + 1};service.included_services = included_services;return included_services}");
-  ("gatt.IncludedServiceDeclaration.__init__",
-   "(self,service){declaration_bytes = struct.pack('<HH2s', service.handle, service.end_group_handle, bytes(service.uuid));super().__init__(GATT_INCLUDE_ATTRIBUTE_TYPE, Attribute.READABLE, declaration_bytes);self.service = service}")
-].
-
-Fixpoint override (k : string) (v : string) (l : list (string * string)) : list (string * string) :=
-  match l with
-  | [] => []
-  | (k', v') :: l' => if String.eqb k' k then (k', v) :: l' else (k', v') :: override k v l'
-  end.
-
-Definition model_skeletons_pre_D12e : list (string * string) :=
-  fold_left (fun l kv => override (fst kv) (snd kv) l) pre_D12e_skeletons model_skeletons.
-
 Fixpoint lookup_const (k : string) (l : list (string * Z)) : Z :=
   match l with
   | [] => -1000000
@@ -246,10 +225,6 @@ Fixpoint skeletons_eqb (a b : list (string * string)) : bool :=
   | (n1, s1) :: a', (n2, s2) :: b' => andb (andb (String.eqb n1 n2) (String.eqb s1 s2)) (skeletons_eqb a' b')
   | _, _ => false
   end.
-
-(* the source is the modelled code, or the modelled code without the repair D12e *)
-Definition skeletons_match (src : list (string * string)) : bool :=
-  orb (skeletons_eqb src model_skeletons) (skeletons_eqb src model_skeletons_pre_D12e).
 
 Fixpoint consts_eqb (a b : list (string * Z)) : bool :=
   match a, b with
